@@ -35,7 +35,7 @@ def jobs(tier, seed):
     from . import c02
     for j in c02.jobs(tier, seed):
         if is_sweep(j) or str(j['name']).startswith('shape') or j['name'] in ('desc128', 'desc255', 'no_frames'): continue
-        j = dict(j); j['cfg'] = {'gens': 1, 'dump': 1, 'obsfiles': 1}; j['lname'] = j['name']; j['name'] = 'loaded'
+        j = dict(j); j['cfg'] = {}; j['entry'] = 'h_resave'; j['lname'] = j['name']; j['name'] = 'loaded'
         out.append(j)
     return out
 
